@@ -49,12 +49,12 @@ func doNew(c []byte, cexpr, class, note string) {
 	}
 	if !sampleAll {
 		// quick tier: the Go-side oracle (cheap) sees every input; the Coq model (what costs) a
-		// deterministic 1/12 sample of them
+		// deterministic 1/16 sample of them
 		h := uint32(2166136261)
 		for _, b := range c {
 			h = (h ^ uint32(b)) * 16777619
 		}
-		if h%12 != 0 {
+		if h%16 != 0 {
 			seenInput[string(c)] = true
 			r := cfgx.Run(c)
 			desc := r.Desc(note)
@@ -99,6 +99,21 @@ type named struct {
 	name string
 	c    []byte
 }
+
+// coqOf: optional Coq expression for a corpus config (huge configs: pat terms instead of a literal)
+var coqOf = map[string]string{}
+
+// isMax: corpus configs of maxlen(): in the quick tier the raw-byte stages concentrate on their length fields
+var isMax = map[string]bool{}
+
+func capFields(f []int) []int {
+	if len(f) <= 12 {
+		return f
+	}
+	return append(append([]int{}, f[:8]...), f[len(f)-4:]...)
+}
+
+func patCoq(n, a, b int) string { return fmt.Sprintf("(pat %d %d %d)", n, a&0xFF, b) }
 
 func pat(n, a, b int) []byte {
 	o := make([]byte, n)
@@ -158,6 +173,55 @@ func valid(tls *cfgx.TLSMaterial) []named {
 		{"dns-late", cfg.Pack(cfg.Sleep(time.Second), cfg.Host("h"), cfg.TransformDNS("a.com", "b.com"))},
 		{"host-300", cfg.Pack(cfg.Jitter(3), cfg.Host(string(pat(300, 'a', 0))), cfg.ConnectTCP)},
 		{"xor-300", cfg.Pack(cfg.Jitter(3), cfg.Weight(3), cfg.WrapXOR(pat(300, 1, 1)), cfg.ConnectTCP, cfg.Host("h"))},
+	}
+	return l
+}
+
+// maxlen: every length-prefixed field of every setting at the ends of its range - one-byte lengths (DNS names, WC2
+// header names / values, the DNS and header COUNT bytes) at {0,1,254,255}, two-byte lengths (host, xor key, WC2
+// url / host / agent, CA / certificate / key blobs) at {0,1,255,256,65534,65535} - as produced by the constructors;
+// the raw-byte stages (truncation, length-field change, boundary substitution, splices) then work on them.
+func maxlen(thorough bool) []named {
+	s := func(n, a int) string { return string(pat(n, a, 1)) }
+	names255 := make([]string, 255)
+	for i := range names255 {
+		names255[i] = "d"
+	}
+	hdr255 := map[string]string{}
+	for i := 0; i < 255; i++ {
+		hdr255[fmt.Sprintf("K%03d", i)] = "v"
+	}
+	l := []named{
+		{"dns-255-254-1", cfg.Pack(cfg.Host("h"), cfg.TransformDNS(s(255, 'a'), "a.b", s(254, 'b'), "c"), cfg.ConnectTCP)},
+		{"dns-255-last", cfg.Pack(cfg.ConnectUDP, cfg.TransformDNS(s(255, 'a')))},
+		{"dns-255-names", cfg.Pack(cfg.Host("h"), cfg.TransformDNS(names255...), cfg.Jitter(1))},
+		{"dns-0-names", cfg.Pack(cfg.Host("h"), cfg.TransformDNS())},
+		{"wc2-hdr-255", cfg.Pack(cfg.Host("h"), cfg.ConnectWC2("/u", "", "a", map[string]string{s(255, 'K'): s(255, 'V')}), cfg.WrapHex)},
+		{"wc2-hdr-254-0", cfg.Pack(cfg.ConnectWC2("", "hh", "", map[string]string{s(254, 'K'): ""}), cfg.Host("h"))},
+		{"wc2-hdr-1-254", cfg.Pack(cfg.ConnectWC2("/", "", "", map[string]string{"k": s(254, 'V')}))},
+		{"wc2-255-headers", cfg.Pack(cfg.Jitter(2), cfg.ConnectWC2("/", "h", "a", hdr255), cfg.Host("h"))},
+		{"wc2-url-255-256-1", cfg.Pack(cfg.ConnectWC2(s(255, 'u'), s(256, 'h'), "a", nil), cfg.Host("h"))},
+		{"wc2-agent-256", cfg.Pack(cfg.Host("h"), cfg.ConnectWC2("", "", s(256, 'a'), map[string]string{"k": "v"}))},
+		{"host-255-256-1", cfg.Pack(cfg.Host(s(255, 'h')), cfg.Host(s(256, 'i')), cfg.Host("j"), cfg.ConnectTCP)},
+		{"xor-255-256-1", cfg.Pack(cfg.WrapXOR(pat(255, 1, 1)), cfg.WrapXOR(pat(256, 2, 1)), cfg.WrapXOR([]byte{9}), cfg.Host("h"))},
+		{"tlsca-255", cfg.Pack(cfg.Host("h"), cfg.ConnectTLSExCA(1, pat(255, 'c', 1)), cfg.Jitter(1))},
+		{"tlsca-256-last", cfg.Pack(cfg.Host("h"), cfg.ConnectTLSExCA(1, pat(256, 'c', 1)))},
+		{"tlsca-1", cfg.Pack(cfg.ConnectTLSExCA(1, []byte{'x'}), cfg.Host("h"))},
+		{"tlscerts-255-256", cat(cfg.Pack(cfg.Host("h")), tlsCerts(2, pat(255, 'p', 1), pat(256, 'k', 1)), cfg.Pack(cfg.WrapHex))},
+		{"tlscerts-1-0", cat(cfg.Pack(cfg.Host("h")), tlsCerts(2, []byte{'p'}, nil))},
+		{"mtls-255-256-1", cfg.Pack(cfg.Host("h"), cfg.ConnectMuTLS(3, pat(255, 'c', 1), pat(256, 'p', 1), []byte{'k'}), cfg.Jitter(1))},
+		{"mtls-0-1-255", cfg.Pack(cfg.ConnectMuTLS(3, nil, []byte{'p'}, pat(255, 'k', 1)))},
+	}
+	huge := func(name string, pre []byte, hdr byte, n int, a int, post []byte) {
+		c := cat(pre, []byte{hdr, byte(n >> 8), byte(n)}, pat(n, a, 1), post)
+		coqOf[name] = fmt.Sprintf("(%s ++ %s ++ %s)", vh.Bytes(cat(pre, []byte{hdr, byte(n >> 8), byte(n)})), patCoq(n, a, 1), vh.Bytes(post))
+		l = append(l, named{name, c})
+	}
+	huge("host-65535", []byte{0xA2, 3}, 0xA0, 65535, 'h', []byte{0xC0})
+	if thorough {
+		huge("xor-65534-last", []byte{0xC0, 0xA0, 0, 1, 'h'}, 0xD4, 65534, 7, nil)
+		huge("host-65534", nil, 0xA0, 65534, 'h', []byte{0xC2, 0xA2, 1})
+		huge("xor-65535", []byte{0xA2, 3}, 0xD4, 65535, 7, []byte{0xC0, 0xA0, 0, 1, 'h'})
 	}
 	return l
 }
@@ -340,12 +404,20 @@ func main() {
 
 	// valid configs; the big ones are named once in the preamble of every shard
 	vs := valid(tls)
+	for _, m := range maxlen(thorough) {
+		isMax[m.name] = true
+		vs = append(vs, m)
+	}
 	names := make([]string, len(vs))
 	pre := out.Imports
 	for k, v := range vs {
 		if len(v.c) > 100 {
 			names[k] = fmt.Sprintf("base_%d", k)
-			pre += fmt.Sprintf("\nDefinition %s : list Z := %s.", names[k], vh.Bytes(v.c))
+			def := vh.Bytes(v.c)
+			if x := coqOf[v.name]; x != "" {
+				def = x
+			}
+			pre += fmt.Sprintf("\nDefinition %s : list Z := %s.", names[k], def)
 		}
 	}
 	out.Imports = pre
@@ -404,8 +476,20 @@ func main() {
 	out.Extra("boundary_source", bsrc)
 	for vk, v := range vs {
 		c := v.c
+		only := map[int]bool{}
+		if isMax[v.name] && !thorough {
+			for _, o := range capFields(lengthFields(c)) {
+				only[o] = true
+			}
+		}
 		for o := 0; o < len(c); o++ {
-			if len(c) > 100 && !thorough && o >= 80 && o < len(c)-24 {
+			if len(only) > 0 && !only[o] {
+				continue
+			}
+			if len(c) > 100 && !thorough && o >= 80 && o < len(c)-24 && !only[o] {
+				continue
+			}
+			if len(c) > 5000 && o >= 8 && o < len(c)-2 && !only[o] {
 				continue
 			}
 			for _, b := range bv {
@@ -444,9 +528,18 @@ func main() {
 			if len(c) > 100 && !thorough && k > 60 && k < len(c)-16 && k%97 != 0 {
 				continue
 			}
+			if isMax[v.name] && !thorough && k > 12 && k < len(c)-6 && k%211 != 0 {
+				continue
+			}
+			if len(c) > 5000 && k > 4 && k < len(c)-2 && (!thorough || k%9973 != 0) {
+				continue
+			}
 			doX(append([]byte(nil), c[:k]...), expr(vk, "(take %d %s)", k, names[vk]), "truncation", v.name)
 		}
 		lf := lengthFields(c)
+		if isMax[v.name] && !thorough {
+			lf = capFields(lf)
+		}
 		for _, o := range lf {
 			vals := []int{0, 1, 2, int(c[o]) - 1, int(c[o]) + 1, 0x7F, 0x80, 0xFF}
 			if !thorough && len(lf) > 30 {
